@@ -648,7 +648,8 @@ static void sink_b(const char* id, int64_t, int64_t)
     std::unique_lock<std::mutex> l(sm);
     long n = ++seenB[id];
     if (!strcmp(id, "stop_call")) { stop_seen = true; visits_after_stopB = 0; stop_thread = std::this_thread::get_id(); scv.notify_all(); return; }
-    if (!strcmp(id, "thread_start")) search_thread = std::this_thread::get_id();
+    // a new search thread: a stop_call seen before it belongs to the PREVIOUS search (go_command ends that one before it starts the next)
+    if (!strcmp(id, "thread_start")) { search_thread = std::this_thread::get_id(); stop_seen = false; visits_after_stopB = -1; }
     if (!strcmp(id, "node") || !strcmp(id, "qnode")) { visitsB++; if (stop_seen) visits_after_stopB++; }
     if (park_id == id && n == park_count)
     {
